@@ -213,3 +213,78 @@ Proof.
   | H : False |- _ => contradiction
   end; cbn; lia.
 Qed.
+
+(* ---------------------------------------------------------------------------
+   T1  the public operators of LinearSpaceElement on a tensor / discretized space
+   (floating dtype): each program (C01/ModelSpace.v, a transcription of
+   odl/set/space.py tied to the code by the correspondence) returns, its output
+   holds the entry-wise specification, and every other buffer -- in particular the
+   operand that is not the output -- is unchanged.  [yields m s out spec] :=
+   exists s', m s = Ok s' /\ s' out = spec /\ forall j <> out, s' j = s j.
+   x and y may be the same object everywhere (x + x, x -= x, ...); the fresh
+   output t of the out-of-place forms holds arbitrary values before. *)
+From Verif Require Import C01.ProofsWrap.
+Section Operators.
+Context (T : Type) (N : Num T) (F : NumField T)
+        (flg : nat -> bool * bool) (bdtf : nat -> bool) (icast : T -> T).
+Notation sp := (SLeaf true).
+Local Open Scope num_scope.
+
+Theorem op_add : forall (x y t : nat) (s : store T),
+  length (s x) = length (s y) -> length (s t) = length (s x) ->
+  yields (w_add flg bdtf icast sp (Leaf x) (Leaf y) (Leaf t)) s t (vadd (s x) (s y)).
+Proof. exact (add_spec flg bdtf icast). Qed.
+Theorem op_sub : forall (x y t : nat) (s : store T),
+  length (s x) = length (s y) -> length (s t) = length (s x) ->
+  yields (w_sub flg bdtf icast sp (Leaf x) (Leaf y) (Leaf t)) s t (vsub (s x) (s y)).
+Proof. exact (sub_spec flg bdtf icast). Qed.
+Theorem op_iadd : forall (x y : nat) (s : store T),
+  length (s x) = length (s y) ->
+  yields (w_iadd flg bdtf icast sp (Leaf x) (Leaf y)) s x (vadd (s x) (s y)).
+Proof. exact (iadd_spec flg bdtf icast). Qed.
+Theorem op_isub : forall (x y : nat) (s : store T),
+  length (s x) = length (s y) ->
+  yields (w_isub flg bdtf icast sp (Leaf x) (Leaf y)) s x (vsub (s x) (s y)).
+Proof. exact (isub_spec flg bdtf icast). Qed.
+Theorem op_mul_scalar : forall (c : T) (x t : nat) (s : store T),
+  length (s t) = length (s x) ->
+  yields (w_mul_scalar flg bdtf icast sp (Leaf x) c (Leaf t)) s t (map (fun e => c * e) (s x)).
+Proof. exact (mul_scalar_spec flg bdtf icast). Qed.
+Theorem op_imul_scalar : forall (c : T) (x : nat) (s : store T),
+  yields (w_imul_scalar flg bdtf icast sp (Leaf x) c) s x (map (fun e => c * e) (s x)).
+Proof. exact (imul_scalar_spec flg bdtf icast). Qed.
+Theorem op_truediv_scalar : forall (c : T) (x t : nat) (s : store T),
+  c <> nzero -> length (s t) = length (s x) ->
+  yields (w_truediv_scalar flg bdtf icast sp (Leaf x) c (Leaf t)) s t (map (fun e => e / c) (s x)).
+Proof. exact (truediv_scalar_spec flg bdtf icast). Qed.
+Theorem op_neg : forall (x t : nat) (s : store T),
+  length (s t) = length (s x) ->
+  yields (w_neg flg bdtf icast sp (Leaf x) (Leaf t)) s t (vopp (s x)).
+Proof. exact (neg_spec flg bdtf icast). Qed.
+Theorem op_assign : forall (x y : nat) (s : store T),
+  length (s x) = length (s y) ->
+  yields (w_assign flg bdtf icast sp (Leaf x) (Leaf y)) s x (s y).
+Proof. exact (assign_spec flg bdtf icast). Qed.
+Theorem op_copy : forall (x t : nat) (s : store T),
+  length (s t) = length (s x) ->
+  yields (w_copy flg bdtf icast sp (Leaf x) (Leaf t)) s t (s x).
+Proof. exact (copy_spec flg bdtf icast). Qed.
+(* scalar broadcasting:  x + c  goes through  tmp = one(); lincomb(1, x, c, tmp, out=tmp) *)
+Theorem op_add_scalar : forall (c : T) (x t : nat) (s : store T),
+  t <> x -> length (s t) = length (s x) ->
+  yields (w_add_scalar flg bdtf icast sp (Leaf x) c (Leaf t)) s t (map (fun e => e + c) (s x)).
+Proof. exact (add_scalar_spec flg bdtf icast). Qed.
+(* c - x:  tmp = one(); lincomb(c, tmp, out=tmp); lincomb(1, tmp, -1, x, out=tmp) *)
+Theorem op_rsub_scalar : forall (c : T) (x t : nat) (s : store T),
+  t <> x -> length (s t) = length (s x) ->
+  yields (w_rsub_scalar flg bdtf icast sp (Leaf x) c (Leaf t)) s t (map (fun e => c - e) (s x)).
+Proof. exact (rsub_scalar_spec flg bdtf icast). Qed.
+Theorem op_mul : forall (x y t : nat) (s : store T),
+  yields (w_mul sp (Leaf x) (Leaf y) (Leaf t)) s t (vmul (s y) (s x)).
+Proof. exact mul_spec. Qed.
+Theorem op_truediv : forall (x y t : nat) (s : store T),
+  yields (w_truediv sp (Leaf x) (Leaf y) (Leaf t)) s t (vdiv (s x) (s y)).
+Proof. exact truediv_spec. Qed.
+End Operators.
+Print Assumptions op_rsub_scalar.
+Print Assumptions op_add_scalar.
